@@ -14,6 +14,7 @@ def overlap(w, rng):
         w.scans = w.scans + [w.scans[0]]
 
 
+LONG = [b"n" * 255, b"n" * 256, b"\xe4\xb8\xad" * 85 + b"ab", b"\xe4\xb8\xad" * 94, b"p" * 300, b"\xc3\xa9" * 128 + b"z", b"q" * 254 + b"\xc3\xa9"]
 ODD = [b".\x7f.", b".\xe2\x80\xae.", b"\xe2\x80\x8e..", b"..\xe2\x80\x8f", b".\x01.", b"\x7f", b"\xe2\x80\xae", b"a\x7fb", b"\xc2\x85..", b".\xe2\x80\x8b.", b"\xef\xbb\xbf..", b".\x00.", b".\t.",
        b"..\\..\\..\\escaped.bin", b"a\\b", b"..\\x", b"...", b"..a", b"a..", b" ", b"~", b"-x", b"*", b"con", b".hidden", b"a:b", b"%2e%2e", b"x\\..\\..\\y"]
 
@@ -26,7 +27,7 @@ def odd_names(w, rng):
         return
     i = rng.randrange(len(w.torrents))
     t = w.torrents[i]
-    tok = rng.choice(ODD)
+    tok = rng.choice(ODD + LONG)
     files = t.files
     name = t.name
     r = rng.random()
